@@ -246,7 +246,7 @@ def cmp_streams(go_streams, model_streams, scale=1.0):
 
 
 # ---------------------------------------------------------------- Lean obligations
-EXTRA_MODULES = {'C01': ['C01Gen', 'C01Int'], 'C18': ['C18Gen'], 'C05': ['C05Hand', 'C06More'], 'C06': ['C06Hand', 'C06More']}
+EXTRA_MODULES = {'C03': ['C03Change'], 'C01': ['C01Gen', 'C01Int'], 'C18': ['C18Gen'], 'C05': ['C05Hand', 'C06More'], 'C06': ['C06Hand', 'C06More']}
 
 
 def lean_obligations(prop):
